@@ -86,7 +86,10 @@ where
   type Unsub = Subject::Unsub;
 
   fn actual_subscribe(self, mut observer: O) -> Self::Unsub {
-    observer.next(self.value.rc_deref().clone());
+    // Read the value out first: the subscriber must not be called while the
+    // value cell is held, or a thread-safe subject blocks on a `peek` from it.
+    let value = self.value.rc_deref().clone();
+    observer.next(value);
     self.subject.actual_subscribe(observer)
   }
 }
